@@ -10,6 +10,7 @@ EXCEPTIONS = {
     ("echs_instant_matches_p", "wl"): "stateful by design: the monotone whitelist of `echse --filter`; not used by rule expansion or the daemon",
     ("echs_instant_matches_p", "nwl"): "fill level of that whitelist",
     ("echs_instant_matches_p", "iwl"): "cursor of that whitelist",
+    ("send_task", "auto_uid"): "counter for generated UIDs: deliberately advances from task to task",
 }
 
 SCOPES = {
@@ -19,6 +20,7 @@ SCOPES = {
     "rrule": (("evrrul.c", "evrrul.h"), None),
     "bitint": (("bitint.c", "bitint.h", "bitint-bobs.c"), None),
     "sort": (("instant.h", "wikisort.c", "instant.c"), None),
+    "serialise": (("evical.c",), {"evical.c": "send_"}),      # the writer side of evical.c: every function named send_*
 }
 
 
@@ -126,9 +128,100 @@ def memo_key_complete(f, name):
     return True, "memo keyed on every argument its value depends on (%s)" % ", ".join(sorted(covered))
 
 
+def lazy_constant(prog, f, name):
+    """A static that is written only under a guard over the function's own statics, from values that depend on no argument, by code
+    that hands no argument to anybody, is a lazily computed process constant (the DTSTAMP line of send_ical_hdr): whatever task the
+    first call was made for, every call sees the same value.  Returns (ok, why)."""
+    from ..facts import walk, strip_casts, lv, writes, calls
+    from ..flow import edge_dominates
+    cfg = f.cfg
+    statics = {l["n"] for l in f.locals if l.get("static")}
+    locals_def = {}
+    for b, i, x, line in cfg.all_elems():
+        if isinstance(x, dict):
+            for l, kind, nn in writes(x):
+                rhs = nn.get("init") if kind == "decl" else (nn.get("r") if nn.get("k") == "bin" else None)
+                if strip_casts(l).get("k") == "ref" and rhs is not None and lv(l) not in statics:
+                    locals_def.setdefault(lv(l), []).append(rhs)
+
+    def mentions_static(x):
+        return {q["n"] for q in walk(x) if q.get("k") == "ref" and q.get("dk") == "slocal" and q.get("n") in statics}
+
+    def readonly_param(c, k):
+        fn = c.get("fn")
+        for g in prog.functions.get(fn, []) if fn else []:
+            if k < len(g.params):
+                t = g.params[k].get("t") or ""
+                return t.startswith("const ") and "*" in t
+        return False
+    sites = []      # (block, line, values written)
+    for b, i, x, line in cfg.all_elems():
+        if not isinstance(x, dict):
+            continue
+        for l, kind, nn in writes(x):
+            if kind == "decl":
+                continue
+            if lv(l).split("[")[0].split(".")[0] in statics:
+                vals = [nn["r"]] if nn.get("k") == "bin" else []
+                tl = strip_casts(l)
+                if tl.get("k") == "idx":
+                    vals.append(tl["i"])
+                sites.append((b, line, vals))
+        if x.get("k") == "call":
+            for k, a in enumerate(x.get("a", [])):
+                a_ = strip_casts(cfg.resolve(a))
+                passes_object = any(q.get("k") == "ref" and q.get("dk") == "slocal" and q.get("n") in statics and (
+                    "[" in (q.get("t") or "") or a_.get("k") == "un" and a_.get("op") == "&") for q in walk(a_))
+                if passes_object and not readonly_param(x, k):
+                    sites.append((b, line, [o for j, o in enumerate(x["a"]) if j != k]))
+    if not sites:
+        return False, "no write found"
+    guards = []
+    for b in cfg.blocks:
+        c = cfg.cond(b)
+        if c is None:
+            continue
+        refs = [q for q in walk(c) if q.get("k") == "ref"]
+        if refs and all(q.get("dk") == "slocal" and q.get("n") in statics for q in refs):
+            for si, s_ in enumerate(cfg.blocks[b].succs):
+                if s_ is not None and si not in cfg.blocks[b].dead:
+                    guards.append((b, si, s_))
+    region = None
+    for gb, si, s_ in guards:
+        if all(edge_dominates(cfg, gb, si, sb) for sb, line, vals in sites):
+            region = {bb for bb in cfg.blocks if edge_dominates(cfg, gb, si, bb)}
+            break
+    if region is None:
+        return False, "it is written outside any guard over the function's own statics"
+    for sb, line, vals in sites:
+        for v in vals:
+            ps = _paths(v, cfg, f, locals_def)
+            if ps:
+                return False, "what is stored at line %s depends on %s" % (line, ", ".join(sorted(ps)))
+    for b, i, x, line in cfg.all_elems():
+        if b in region and isinstance(x, dict) and x.get("k") == "call":
+            for a in x.get("a", []):
+                ps = _paths(a, cfg, f, locals_def)
+                if ps:
+                    return False, "the guarded region hands %s to %s() at line %s" % (", ".join(sorted(ps)), x.get("fn"), line)
+    return True, "lazily computed process constant: written only under a guard over the function's own statics, from values that depend on no argument"
+
+
+def _discharge(prog, f, name):
+    ok, why = memo_key_complete(f, name)
+    if ok:
+        return ok, why
+    ok2, why2 = lazy_constant(prog, f, name)
+    if ok2:
+        return ok2, why2
+    return False, why
+
+
 def no_carried_state(prog, rep, rid, scope):
     from ..props import c12
     files, only = SCOPES[scope]
+    if only:
+        only = {fl: ({f.name for f in prog.fns_in(fl) if f.name.startswith(sel)} if isinstance(sel, str) else sel) for fl, sel in only.items()}
     nfn = nstat = 0
     for file in files:
         for f in prog.fns_in(file):
@@ -138,6 +231,6 @@ def no_carried_state(prog, rep, rid, scope):
             nstat += sum(1 for l in f.locals if l.get("static"))
     if not nfn:
         raise AnalysisBroken("%s: no function in scope %s" % (rid, scope))
-    n = c12.r12_3(prog, rep, files=files, rid=rid, need_init=False, only=only, exceptions=EXCEPTIONS, discharge=memo_key_complete)
+    n = c12.r12_3(prog, rep, files=files, rid=rid, need_init=False, only=only, exceptions=EXCEPTIONS, discharge=lambda f_, name_: _discharge(prog, f_, name_))
     rep.ok(rid, "scope/%s" % scope, "src/" + files[0], "%d functions scanned, %d function-local statics, %d of them written by their function" % (nfn, nstat, n),
            nontrivial=False)
